@@ -1,6 +1,8 @@
 package expressions
 
 import (
+	"math"
+
 	"github.com/osteele/liquid/values"
 )
 
@@ -8,6 +10,10 @@ func makeRangeExpr(startFn, endFn func(Context) values.Value) func(Context) valu
 	return func(ctx Context) values.Value {
 		a := startFn(ctx).Int()
 		b := endFn(ctx).Int()
+		if a <= 0 && b >= math.MaxInt+a {
+			// b-a+1 elements are more than an int can count: Len would overflow
+			panic(InterpreterError("range is too large"))
+		}
 		return values.ValueOf(values.NewRange(a, b))
 	}
 }
